@@ -17,42 +17,52 @@
 #include <sstream>
 #include <fstream>
 
-static volatile long g_case = -1;
-static volatile int g_rank  = -1;
-static volatile const char* g_stage = "";
+// What belongs to one rank lives in a W on that rank's stack (the driver runs without privatization of the globals, and an
+// MPI call may yield to the other ranks, so nothing rank-specific may sit in a global).  g_w[rank] lets the signal handler find
+// the W of the rank that is running.
+struct W {
+  int rank, size;
+  MPI_Group group; // group of MPI_COMM_WORLD
+  volatile long cur_case;
+  const char* volatile stage;
+  sigjmp_buf jb;
+  volatile int armed, fault;
+};
+static W* g_w[1024];
+
 #define STAGE(s)                                                                                                       \
   do {                                                                                                                 \
-    g_case  = id;                                                                                                      \
-    g_rank  = w->rank;                                                                                                 \
-    g_stage = (s);                                                                                                     \
+    w->cur_case = id;                                                                                                  \
+    w->stage    = (s);                                                                                                 \
   } while (0)
 
 // A synchronous fault inside one guarded MPI call (SIGFPE of a division by zero, SIGABRT of an xbt_die) is turned into a
-// result of that call: the handler jumps back to the guard. Only one rank runs at a time and the guarded calls are local.
-static sigjmp_buf g_jb;
-static volatile int g_armed = 0;
-static volatile int g_fault = 0;
+// result of that call: the handler jumps back to the guard of the rank that is running.
 #define GUARDED(stmt)                                                                                                  \
   do {                                                                                                                 \
-    g_fault = 0;                                                                                                       \
-    if (sigsetjmp(g_jb, 1) == 0) {                                                                                     \
-      g_armed = 1;                                                                                                     \
+    w->fault = 0;                                                                                                      \
+    if (sigsetjmp(w->jb, 1) == 0) {                                                                                    \
+      w->armed = 1;                                                                                                    \
       stmt;                                                                                                            \
     }                                                                                                                  \
-    g_armed = 0;                                                                                                       \
+    w->armed = 0;                                                                                                      \
   } while (0)
+#define g_fault (w->fault)
 
 static void on_signal(int sig)
 {
-  if (g_armed && (sig == SIGFPE || sig == SIGABRT)) {
-    g_armed = 0;
-    g_fault = sig;
+  int r = -1;
+  PMPI_Comm_rank(MPI_COMM_WORLD, &r);
+  W* w = (r >= 0 && r < 1024) ? g_w[r] : nullptr;
+  if (w && w->armed && (sig == SIGFPE || sig == SIGABRT)) {
+    w->armed = 0;
+    w->fault = sig;
     signal(sig, on_signal);
-    siglongjmp(g_jb, 1);
+    siglongjmp(w->jb, 1);
   }
   char buf[256];
-  int n = snprintf(buf, sizeof buf, "\n{\"crash\":%d,\"c\":%ld,\"r\":%d,\"stage\":\"%s\"}\n", sig, (long)g_case, (int)g_rank,
-                   (const char*)g_stage);
+  int n = snprintf(buf, sizeof buf, "\n{\"crash\":%d,\"c\":%ld,\"r\":%d,\"stage\":\"%s\"}\n", sig, w ? (long)w->cur_case : -1L, r,
+                   w ? (const char*)w->stage : "?");
   if (write(1, buf, n) < 0) {
   }
   _exit(70 + (sig % 50));
@@ -151,13 +161,6 @@ struct Out {
     fputs(s.c_str(), stdout);
     fflush(stdout);
   }
-};
-
-// The driver runs with --cfg=smpi/privatization:no (no per-rank copy of the binary): every global below is shared by
-// all the ranks of the run; what belongs to one rank lives in a W on that rank's stack.
-struct W {
-  int rank, size;
-  MPI_Group group; // group of MPI_COMM_WORLD
 };
 
 // ---------------------------------------------------------------------------------------------- groups (C32)
@@ -661,7 +664,12 @@ int main(int argc, char** argv)
   MPI_Init(&argc, &argv);
   W ww;
   W* w = &ww;
+  w->armed = w->fault = 0;
+  w->cur_case = -1;
+  w->stage = "init";
   MPI_Comm_rank(MPI_COMM_WORLD, &w->rank);
+  if (w->rank < 1024)
+    g_w[w->rank] = w;
   MPI_Comm_size(MPI_COMM_WORLD, &w->size);
   MPI_Comm_set_errhandler(MPI_COMM_WORLD, MPI_ERRORS_RETURN);
   MPI_Comm_group(MPI_COMM_WORLD, &w->group);
@@ -691,8 +699,6 @@ int main(int argc, char** argv)
     long x;
     while (is >> x)
       t.v.push_back(x);
-    g_case  = id;
-    g_rank  = w->rank;
     STAGE("start");
     if (kind == "setop")
       do_setop(w, id, t);
@@ -724,8 +730,6 @@ int main(int argc, char** argv)
       fprintf(stderr, "mpi_algebra: unknown case kind %s\n", kind.c_str());
       return 2;
     }
-    g_case  = id;
-    g_rank  = w->rank;
     STAGE("barrier");
     printf("{\"c\":%ld,\"r\":%d,\"end\":1}\n", id, w->rank);
     fflush(stdout);
